@@ -1,3 +1,4 @@
+pub mod c04;
 pub mod c05;
 pub mod c06;
 pub mod c07;
@@ -8,11 +9,15 @@ pub mod c16;
 pub mod c18;
 pub mod kb;
 pub mod smoke;
+pub mod wire;
 
 use crate::util::{Params, Report};
 
 pub fn dispatch(prop: &str, p: &Params) -> Option<Report> {
     Some(match prop {
+        "C04" => c04::run_c04(p),
+        "C13" => c04::run_c13(p),
+        "C19" => c04::run_c19(p),
         "C05" => c05::run(p),
         "C06" => c06::run(p),
         "C07" => c07::run(p),
